@@ -1,4 +1,4 @@
-import EaselModel.Getopts.Stops
+import EaselModel.Getopts.Histories
 import EaselModel.Getopts.Abbrev
 import EaselModel.Getopts.Ranges
 /-! # C14 — option processing resolves every configuration by the documented rules
@@ -10,13 +10,13 @@ the differential run of `harness/h_getopts.c`).  Proofs here are glue on the nam
 Full statement (properties.jsonl) and where each clause is proved, for every well-formed option table (`WF`)
 and every sequence of sources:
 * (a) value = last source that set it, default otherwise; second setting by the same source is a usage error:
-  `sources_are_setting_sequences_*`, `last_setter_wins`, `untouched_keeps_state`, `fresh_object_all_default`,
+  `sources_are_setting_sequences_*`, `successful_*_is_history`, `last_setter_wins`, `untouched_keeps_state`, `fresh_object_all_default`,
   `same_source_twice_is_usage_error`, `set_after_toggle_by_same_source_is_usage_error`
-* (b) toggles: `set_option_spec`, `toggle_switches_others_off`
+* (b) toggles: `set_option_spec`, `toggle_switches_others_off`, `optlist_element_denotes_named_option`, `optlist_reads_back_names`
 * (c) abbreviations: `abbrev_full_name_resolves`, `abbrev_resolves_iff_unique`, `abbrev_ambiguous_iff`, `abbrev_unknown_iff`
 * (d) `--`, arguments in order: `dashdash_ends_options`, `first_nonoption_ends_options`, `options_end_where_documented`, `args_returned_in_order`, `getArg_spec`
 * "plus/minus-prefixed booleans": no such feature exists in this version; `plus_word_is_argument` states what the code does.
-* (e) usage errors, never a crash: `cmdline_ends_cleanly`, `spoof_ends_cleanly`, `environment_ends_cleanly`,
+* (e) usage errors, never a crash: `every_history_ends_cleanly`, `cmdline_ends_cleanly`, `spoof_ends_cleanly`, `environment_ends_cleanly`,
   `configfile_ends_cleanly`, `rejected_setting_changes_nothing`, `unknown_long_option`, `ambiguous_long_option`,
   `unknown_short_option`, `argument_to_flag`, `missing_argument_long`, `verifyConfig_spec`
 * (f) queries: `isUsed_iff`, `isDefault_of_default_setter`, `not_default_has_setter`
@@ -42,6 +42,16 @@ theorem sources_are_setting_sequences_cmdline (g : G) (argv : List Str) :
 /-- a run of settings that succeeds is a history in the sense of `runSets` -/
 theorem successful_run_is_history (es : List Ev) (g g' : G) (m : Bool) (h : runEvs g es = .done g' .ok m) :
     runSets g es = some g' := runEvs_ok_runSets es g g' m h
+
+/-- a config file processed successfully is the history of its settings (file counter advanced afterwards) -/
+theorem successful_cfgfile_is_history (src : Nat) (is : List CfgItem) (g g' : G) (m : Bool) (h : runCfg src g is = .done g' .ok m) :
+    ∃ g0, runSets g (cfgEvs src is) = some g0 ∧ g' = { g0 with nfiles := g0.nfiles + 1 } := runCfg_ok_runSets src is g g' m h
+
+/-- a command line processed successfully is the history of its settings (`optind` recorded afterwards) -/
+theorem successful_cmdline_is_history (is : List CmdItem) (g g' : G) (m : Bool)
+    (h : runCmd (fun g' => .done g' .ok false) g is = .done g' .ok m) :
+    ∃ g0, runSets g (cmdEvs is) = some g0 ∧ g'.val = g0.val ∧ g'.setby = g0.setby ∧ g'.opts = g0.opts :=
+  runCmd_ok_runSets is g g' m h
 
 theorem last_setter_wins (pre post : List Ev) (e : Ev) (g g' : G) (hinv : Inv g)
     (hi : ∀ e' ∈ pre ++ e :: post, e'.i < g.opts.length)
@@ -77,6 +87,16 @@ theorem set_option_spec {g g' : G} {i src : Nat} {arg : Option Str} {m : Bool} (
     m = false ∧ Inv g' ∧ SameFrame g g' ∧ g.setter i ≠ src ∧ verifyTypeRange (g.opt i) arg src = .good ∧
     ∀ j, (g'.valOf j, g'.setter j) = setSpec g i arg src j :=
   let ⟨a, b, c, d, e, _, f⟩ := setOption_ok hinv hi h; ⟨a, b, c, d, e, f⟩
+
+/-- an element of a toggle / required / incompatible list denotes the option of exactly that name (no earlier row
+    may have a name that merely starts with it), and a comma-separated list is read back name by name: under these
+    two conditions `listIdx` — used in (b) and in `verifyConfig_ok_iff_consistent` — is the list of the named options -/
+theorem optlist_element_denotes_named_option {opts : List Opt} {i : Nat} {o : Opt} (hi : opts[i]? = some o)
+    (hfirst : ∀ (j : Nat) (o' : Opt), j < i → opts[j]? = some o' → o.name.isPrefixOf o'.name = false) :
+    optlistResolve opts o.name = some i := optlistResolve_named hi hfirst
+
+theorem optlist_reads_back_names (names : List Str) (h : ∀ n ∈ names, ',' ∉ n ∧ n ≠ []) :
+    optlistElems (some (joinComma names)) = names := optlistElems_joinComma names h
 
 theorem toggle_switches_others_off (pre post : List Ev) (e : Ev) (j : Nat) (g g' : G) (hinv : Inv g)
     (hi : ∀ e' ∈ pre ++ e :: post, e'.i < g.opts.length)
@@ -143,6 +163,12 @@ theorem environment_ends_cleanly (g : G) (env : Str → Option Str) (hinv : Inv 
 
 theorem configfile_ends_cleanly (g : G) (content : Str) (hinv : Inv g) (hw : WF g.opts) : Good g (processConfigfile g content) :=
   processConfigfile_good g content hinv hw
+
+/-- **every history of API calls ends cleanly** (statement's "never accepted silently and never a crash", over all
+    sequences of sources in any order) -/
+theorem every_history_ends_cleanly (ss : List Src) (g : G) (hinv : Inv g) (hw : WF g.opts) :
+    ∃ outs g', runAll g ss = some (outs, g') ∧ outs.length = ss.length ∧ Inv g' ∧ g'.opts = g.opts ∧
+      ∀ o ∈ outs, Clean o.1 o.2 ∨ o = (.einval, true) := runAll_clean ss g hinv hw
 
 /-- already set by this source, wrong type, out of range: usage error with a message, object untouched -/
 theorem rejected_setting_changes_nothing {g : G} {i src : Nat} {arg : Option Str}
